@@ -26,6 +26,11 @@ DECIDES = ('G1: every sub-expression the generator evaluates is disposed of and 
            'TEMPKEY: a reused temp leaves the free set, a released temp enters it on every path, temps_in_use() lists exactly the temps not in it. '
            'TEMPEND: ExprNode.generate_disposal_code releases an owned temp with a clearing decref and never a borrowed one; generate_post_assignment_code resets a handed-over temp without releasing it. '
            'NANNY: refnanny Context.regref / delref keep an exact per-object count, refuse one decref too many; DECREF is gated by that verdict.')
+DECIDES += (' BORROW (seventh round, rules/s7C35.py): the result of a borrowed-reference C-API call (table from the C-API manual; __Pyx_ macros resolved through the utility-code catalogue) stored into a slot '
+            'the generator owns (GOTREF / INCREF / managed temp) is made owned - incref, or removal of the item from its container (`ob_size--`) - before any child code or foreign error exit '
+            'is emitted, per emitted #if arm, on every path. '
+            'SETUP: while an unmanaged temp owns a reference (GOTREF emitted) child expression code and error exits are emitted only under an error label created by the function, '
+            'and that label is placed with a release of the temp on every path on which it may have been used.')
 NOT_DECIDED = ('reference balance inside the C helpers other than the slot protocol of INOUT, and on error paths of the generated C other than the argument-unpacking exits and the function error label '
                '(needs the running refnanny); ordering of emitted error checks relative to decrefs outside G7; '
                'null-safety of conditional acquisitions other than the argument entries covered by C35-ARGNULL; '
@@ -44,6 +49,9 @@ def run(ctx):
     # round 6 (rules/dD4.py, shared with C22): a reference parked in an unmanaged temp while a child generates code is released on every exit of that child
     from ..rules import dD4
     rules += [dD4.rule_parked(ctx), dD4.rule_retlive(ctx)]
+    # seventh round (rules/s7C35.py): borrowed results in owned slots; cleanup label covering the whole life of an unmanaged owned temp
+    from ..rules import s7C35
+    rules += s7C35.rules(ctx)
     return rules
 
 
@@ -70,6 +78,13 @@ MUTATIONS += [
     ('Cython/Compiler/ExprNodes.py', 'post-assign-no-clear / disposal-plain-decref / disposal-borrowed', 'C35-TEMPEND'),
     ('Cython/Runtime/refnanny.pyx', 'refnanny-delref-count / refnanny-regref-noinc / refnanny-decref-unguarded', 'C35-NANNY'),
     ('Cython/Compiler/Nodes.py', 'closure-none-incref: MISSED (see NOT_DECIDED)', '-'),
+]
+MUTATIONS += [
+    # seventh round: mutants/C35/g7-*
+    ('Cython/Compiler/ExprNodes.py', 'seed C35i: starred unpacking shrinks the list once after the loop; shrink dropped / after the coercion / on the wrong list; borrowed read in the #else arm; tuple unpacking without incref', 'C35-BORROW'),
+    ('Cython/Compiler/Nodes.py, ModuleNode.py', 'incref of the borrowed bases item / module dict emitted after a foreign error exit', 'C35-BORROW'),
+    ('Cython/Compiler/Nodes.py', 'seed C35j: __enter__ call generated before the cleanup label of exit_var is installed; label put back early / installed late; cleanup without the release / releasing another temp / '
+     'under the wrong label_used test / removed; extra error exit before the label', 'C35-SETUP (G7 for the last)'),
 ]
 SILENT_EDITS = [
     'error-label cleanup: outer guard replaced by `if True:`; by `if not (self.star_arg is None and self.starstar_arg is None and not has_kwonly_args):` with the star release written inline',
